@@ -890,6 +890,7 @@ def run(ctx):
     dcases = constructed_default_cases(ctx, ctx.n(40, 400))
     ctx.stats['cases with a DEFAULT component of constructed type'] = len(dcases)
     cases = targeted() + dcases + codec.gen_cases(ctx, ctx.n(150, 2500), depth=3)
+    cases += codec.empty_member_grid_cases(ctx, every=4 if ctx.tier == 'quick' else 1)      # empty / non-empty constructed members around OPTIONAL ones
     exprs, meta = [], []
     fixed_orders(ctx)
     fixed_default_orders(ctx)
